@@ -297,3 +297,26 @@ Definition c05_comm_build_over (old : c05_minfos) (szs szd : nat -> nat) (ifs : 
   {| c05_cm_ifs := ifs;
      c05_cm_info := fold_left (fun m e => c05_map_insert (fst e) (snd e) m) (c05_cm_info fresh) old;
      c05_cm_b0 := c05_cm_b0 fresh; c05_cm_b1 := c05_cm_b1 fresh |}.
+
+(* ------------------------------------------------------------------ Interface::operator== (same communicator assumed)
+   c05_iface_eqb      : the code after fixes/C05-2 (keys, send lists and receive lists compared pairwise)
+   c05_iface_eqb_tree : the tree before the fix: `om->second.first != om->second.first` compares each list WITH ITSELF,
+                        so only the number of neighbours and their ranks are compared *)
+Fixpoint c05_list_eqb (a b : list nat) : bool :=
+  match a, b with
+  | [], [] => true
+  | x :: a', y :: b' => (x =? y) && c05_list_eqb a' b'
+  | _, _ => false
+  end.
+Fixpoint c05_iface_eqb (m o : c05_imap) : bool :=
+  match m, o with
+  | [], [] => true
+  | (q, (s, r)) :: m', (q', (s', r')) :: o' => (q =? q') && c05_list_eqb s s' && c05_list_eqb r r' && c05_iface_eqb m' o'
+  | _, _ => false
+  end.
+Fixpoint c05_iface_eqb_tree (m o : c05_imap) : bool :=
+  match m, o with
+  | [], [] => true
+  | (q, (s, r)) :: m', (q', (s', r')) :: o' => (q =? q') && c05_list_eqb s' s' && c05_list_eqb r' r' && c05_iface_eqb_tree m' o'
+  | _, _ => false
+  end.
